@@ -1,4 +1,4 @@
-import TakVerif.Spec.ForcedWin
+import TakVerif.Proofs.C06Inv
 
 /-! A plain forced win (least fixed point without any repetition rule) is a forced win under the
 rule "a third occurrence on the path counts against the attacker", from an empty history: a winning
@@ -72,28 +72,49 @@ theorem plainWin_bounded {s : S} (w : PlainWin G att s) : ∃ n, WinN G att n s 
     obtain ⟨n, hn⟩ := uniform_bound G s (fun s' n => WinN G att n s') (fun _ _ h => WinN.succ G att h) ih
     exact ⟨n+1, .defender ho ht hn⟩
 
+/-- `EqualIsBisim` as far as play from `root` can see: every clause is asked only of positions
+reachable from `root` by generated, accepted moves -/
+structure EqualIsBisimFrom (root : S) : Prop where
+  refl : ∀ s, Reach G root s → G.equal s s = true
+  symm : ∀ s t, Reach G root s → Reach G root t → G.equal s t = true → G.equal t s = true
+  trans : ∀ s t u, Reach G root s → Reach G root t → Reach G root u →
+    G.equal s t = true → G.equal t u = true → G.equal s u = true
+  over : ∀ s t, Reach G root s → Reach G root t → G.equal s t = true → G.over s = G.over t
+  toMove : ∀ s t, Reach G root s → Reach G root t → G.equal s t = true → G.toMove s = G.toMove t
+  step : ∀ s t s', Reach G root s → Reach G root t → G.equal s t = true → Succ G s s' →
+    ∃ t', Succ G t t' ∧ G.equal s' t' = true
+
+theorem EqualIsBisim.from_root {G : Game S M} (hb : EqualIsBisim G) (root : S) : EqualIsBisimFrom G root where
+  refl := fun s _ => hb.refl s
+  symm := fun s t _ _ => hb.symm s t
+  trans := fun s t u _ _ _ => hb.trans s t u
+  over := fun s t _ _ => hb.over s t
+  toMove := fun s t _ _ => hb.toMove s t
+  step := fun s t s' _ _ => hb.step s t s'
+
 /-- positions the rules cannot tell apart have the same bounded wins -/
-theorem WinN.equal (hb : EqualIsBisim G) : ∀ (n : Nat) (s t : S), G.equal s t = true →
+theorem WinN.equal {root : S} (hb : EqualIsBisimFrom G root) : ∀ (n : Nat) (s t : S),
+    Reach G root s → Reach G root t → G.equal s t = true →
     WinN G att n s → WinN G att n t := by
   intro n
   induction n with
   | zero =>
-    intro s t he w
+    intro s t rs rt he w
     cases w with
-    | terminal ho => exact .terminal (by rw [← hb.over s t he]; exact ho)
+    | terminal ho => exact .terminal (by rw [← hb.over s t rs rt he]; exact ho)
   | succ n ih =>
-    intro s t he w
+    intro s t rs rt he w
     cases w with
-    | terminal ho => exact .terminal (by rw [← hb.over s t he]; exact ho)
+    | terminal ho => exact .terminal (by rw [← hb.over s t rs rt he]; exact ho)
     | attacker ho ht hs hw =>
-      obtain ⟨t', hst, het⟩ := hb.step s t _ he hs
-      exact .attacker (by rw [← hb.over s t he]; exact ho) (by rw [← hb.toMove s t he]; exact ht) hst
-        (ih _ _ het hw)
+      obtain ⟨t', hst, het⟩ := hb.step s t _ rs rt he hs
+      exact .attacker (by rw [← hb.over s t rs rt he]; exact ho) (by rw [← hb.toMove s t rs rt he]; exact ht) hst
+        (ih _ _ (.step rs hs) (.step rt hst) het hw)
     | defender ho ht hall =>
-      refine .defender (by rw [← hb.over s t he]; exact ho) (by rw [← hb.toMove s t he]; exact ht) ?_
+      refine .defender (by rw [← hb.over s t rs rt he]; exact ho) (by rw [← hb.toMove s t rs rt he]; exact ht) ?_
       intro t' hst
-      obtain ⟨s', hss, hes⟩ := hb.step t s t' (hb.symm s t he) hst
-      exact ih _ _ (hb.symm _ _ hes) (hall s' hss)
+      obtain ⟨s', hss, hes⟩ := hb.step t s t' rt rs (hb.symm s t rs rt he) hst
+      exact ih _ _ (.step rs hss) (.step rt hst) (hb.symm _ _ (.step rt hst) (.step rs hss) hes) (hall s' hss)
 
 /-- least rank -/
 theorem exists_least {s : S} : ∀ {n : Nat}, WinN G att n s →
@@ -110,12 +131,13 @@ theorem exists_least {s : S} : ∀ {n : Nat}, WinN G att n s →
       intro j hj hw
       exact hex ⟨j, hj, hw⟩
 
-theorem win_of_least (hb : EqualIsBisim G) : ∀ (n : Nat) (s : S) (h : List S),
+theorem win_of_least {root : S} (hb : EqualIsBisimFrom G root) : ∀ (n : Nat) (s : S) (h : List S),
+    Reach G root s → (∀ t ∈ h, Reach G root t) →
     WinN G att n s → (∀ j, j < n → ¬ WinN G att j s) → (∀ t ∈ h, ¬ WinN G att n t) → Win G att h s := by
   intro n
   induction n using Nat.strongRecOn with
   | _ n ih =>
-    intro s h w hmin hh
+    intro s h rs rh w hmin hh
     have hnorep : G.over s = none → ¬ Rep3 G h s := by
       intro _ hr
       unfold Rep3 at hr
@@ -126,13 +148,18 @@ theorem win_of_least (hb : EqualIsBisim G) : ∀ (n : Nat) (s : S) (h : List S),
           have : t ∈ h.filter (fun t => G.equal t s) := by rw [hf]; exact List.mem_cons_self
           exact ⟨t, (List.mem_filter.mp this).1, (List.mem_filter.mp this).2⟩
       obtain ⟨t, ht, he⟩ := this
-      exact hh t ht (WinN.equal G att hb n s t (hb.symm t s he) w)
+      exact hh t ht (WinN.equal G att hb n s t rs (rh t ht) (hb.symm t s (rh t ht) rs he) w)
+    have rh' : ∀ t ∈ s :: h, Reach G root t := by
+      intro t ht
+      rcases List.mem_cons.mp ht with e | e
+      · subst e; exact rs
+      · exact rh t e
     cases w with
     | terminal ho => exact .terminal ho
     | @attacker n0 _ s' ho ht hs hw =>
       obtain ⟨k, hk, hwk, hkmin⟩ := exists_least G att hw
       refine .attacker ho (hnorep ho) ht hs ?_
-      refine ih k (by omega) s' (s :: h) hwk hkmin ?_
+      refine ih k (by omega) s' (s :: h) (.step rs hs) rh' hwk hkmin ?_
       intro t htm
       rcases List.mem_cons.mp htm with e | e
       · subst e; exact hmin k (by omega)
@@ -141,16 +168,22 @@ theorem win_of_least (hb : EqualIsBisim G) : ∀ (n : Nat) (s : S) (h : List S),
       refine .defender ho (hnorep ho) ht ?_
       intro s' hs
       obtain ⟨k, hk, hwk, hkmin⟩ := exists_least G att (hall s' hs)
-      refine ih k (by omega) s' (s :: h) hwk hkmin ?_
+      refine ih k (by omega) s' (s :: h) (.step rs hs) rh' hwk hkmin ?_
       intro t htm
       rcases List.mem_cons.mp htm with e | e
       · subst e; exact hmin k (by omega)
       · intro wt; exact hh t e (WinN.mono G att wt (by omega))
 
-/-- a plain forced win is a forced win in the game where a third occurrence counts against the attacker -/
-theorem plainWin_win_nil (hb : EqualIsBisim G) {s : S} (w : PlainWin G att s) : Win G att [] s := by
+/-- a plain forced win at `root` is a forced win in the game where a third occurrence counts against
+the attacker, when `G.equal` is a bisimulation on the positions reachable from `root` -/
+theorem plainWin_win_nil_from {root : S} (hb : EqualIsBisimFrom G root) (w : PlainWin G att root) :
+    Win G att [] root := by
   obtain ⟨n, hn⟩ := plainWin_bounded G att w
   obtain ⟨k, _, hwk, hkmin⟩ := exists_least G att hn
-  exact win_of_least G att hb k s [] hwk hkmin (by simp)
+  exact win_of_least G att hb k root [] .refl (by simp) hwk hkmin (by simp)
+
+/-- a plain forced win is a forced win in the game where a third occurrence counts against the attacker -/
+theorem plainWin_win_nil (hb : EqualIsBisim G) {s : S} (w : PlainWin G att s) : Win G att [] s :=
+  plainWin_win_nil_from G att (EqualIsBisim.from_root hb s) w
 
 end C06
